@@ -15,7 +15,7 @@
    [wf_ops ops]: the node never reports 2^64-1025 as confirmed nonce (the only value for which
    nonce 2^64-1, after which no larger nonce exists, passes the window test). *)
 From Coq Require Import String List NArith Bool.
-From MevVerif Require Import lib.Bytes model.EvmSend check.Check_C08 proofs.EvmSend_proofs.
+From MevVerif Require Import lib.Bytes gen.Generated model.EvmSend check.Check_C08 proofs.EvmSend_proofs.
 Import ListNotations.
 Open Scope N_scope.
 
@@ -28,9 +28,29 @@ Theorem C08_monotone : forall ops pre p1 n1 mid p2 n2 post,
 Proof. exact monotone. Qed.
 Print Assumptions C08_monotone.
 
-(* Across client restarts as well, provided no client that has not yet learnt a non-zero nonce is
-   given a pending answer at or below a nonce accepted earlier ([sync_ok], decidable; without
-   persistent state no implementation can do without it: example_stale_restart). *)
+(* Across client restarts.  What is proved with a premise on the node's answers only: once ONE pending
+   answer given to the restarted client (up to and including the one for this request) is above a nonce
+   accepted before the restart, every nonce the new client gets accepted from then on is above that nonce
+   (together with C08_first_after_restart: its first accepted nonce is exactly the highest pending answer it
+   has received). *)
+Theorem C08_restart_fresh_answer : forall ops pre mid p2 n2 post n1 q,
+  wf_ops ops ->
+  run init ops = pre ++ TRestart :: mid ++ TSend p2 (Accepted n2) :: post ->
+  no_restart mid ->
+  In q (pendings (mid ++ [TSend p2 (Accepted n2)])) -> n1 < q -> n1 < n2.
+Proof. exact restart_fresh_answer. Qed.
+Print Assumptions C08_restart_fresh_answer.
+
+(* The same for whole histories with any number of restarts, under the decidable premise [sync_ok]: no
+   client that has not yet learnt a non-zero nonce (since its start all its pending answers were errors or 0
+   and nothing was accepted) is given a pending answer at or below a nonce accepted earlier.
+   WHAT REMAINS UNPROVED WITHOUT IT, and is in fact false (next theorem): ordering between a nonce accepted
+   before a restart and one accepted after it when every answer the restarted client received so far is
+   stale (at or below that nonce).  The property's quantifier lists "client restarts at any point" and
+   "stale pending answers" together; for that combination the code -- like any client that keeps its counter
+   in memory only -- reuses nonces.  Everything else of the clause (one client's lifetime: C08_monotone with
+   no condition on the answers; restart followed by at least one non-stale answer: C08_restart_fresh_answer)
+   holds outright. *)
 Theorem C08_restart : forall ops pre p1 n1 mid p2 n2 post,
   wf_ops ops -> sync_ok (run init ops) = true ->
   run init ops = pre ++ TSend p1 (Accepted n1) :: mid ++ TSend p2 (Accepted n2) :: post ->
@@ -38,10 +58,19 @@ Theorem C08_restart : forall ops pre p1 n1 mid p2 n2 post,
 Proof. exact monotone_restart. Qed.
 Print Assumptions C08_restart.
 
+(* The premise is needed: nonce 0 accepted, restart, stale answer 0 -> nonce 0 accepted again. *)
+Theorem C08_restart_without_premise_refuted :
+  exists ops pre p1 n1 mid p2 n2 post,
+    wf_ops ops /\
+    run init ops = pre ++ TSend p1 (Accepted n1) :: mid ++ TSend p2 (Accepted n2) :: post /\
+    sync_ok (run init ops) = false /\ ~ n1 < n2.
+Proof. exact restart_without_premise_refuted. Qed.
+Print Assumptions C08_restart_without_premise_refuted.
+
 (* Whatever reaches the node (accepted or rejected by it) is never below the pending nonce reported
-   for that request. *)
+   for that request (no premise). *)
 Theorem C08_ge_pending : forall ops p r n,
-  wf_ops ops -> In (TSend (Some p) r) (run init ops) -> reached r = Some n -> p <= n.
+  In (TSend (Some p) r) (run init ops) -> reached r = Some n -> p <= n.
 Proof. exact ge_pending. Qed.
 Print Assumptions C08_ge_pending.
 
@@ -112,6 +141,15 @@ Theorem C08_window : forall gn ops pre p r n post,
 Proof. exact window. Qed.
 Print Assumptions C08_window.
 
+(* "All interleavings of concurrent send requests": a history is a sequence of WHOLE Send calls because Send
+   takes the client mutex first and releases it by defer -- the calls c.mtx.Lock / c.mtx.Unlock inside
+   EvmClient.Send are regenerated from evmclient.go on every run, so removing the lock breaks this build
+   (and the driver's concurrent bursts observe the node-side order). *)
+Theorem C08_send_serialised :
+  Generated.c08_send_locks = true /\ Generated.c08_send_unlocks = true.
+Proof. exact send_serialised_now. Qed.
+Print Assumptions C08_send_serialised.
+
 (* The boolean checker the harness evaluates on every observed history (clauses nonce-reuse,
    below-pending, skipped, failure-consumed, window) never fires on a history of the model. *)
 Theorem C08_checker_silent_on_model : forall ops,
@@ -130,13 +168,14 @@ Print Assumptions C08_monotone_v0_refuted.
 
 (* ---- composition with C10 (proofs/Compose_chain.v) -----------------------------------------------------------
    The combined machine [Compose_chain.crun cl ops] interleaves the operations above with CancelTx calls
-   (OCancel: the target is one of the transactions accepted so far, named by position; every other answer
-   is free).  [Compose_chain.strip ops] is the history with the cancellations removed,
+   (OCancel: the target is one of the transactions accepted so far, named by position, or any other
+   transaction the node knows -- CancelTx takes any hash; every other answer is free).  The three theorems
+   below hold for every target.  [Compose_chain.strip ops] is the history with the cancellations removed,
    [Compose_chain.send_events t] the Send / Conf / Restart events of a combined trace.  Frame fact: CancelTx
    never assigns c.nonce and never stores the monitor's confirmed nonce -- regenerated from evmclient.go on
    every run (gen/Generated.v: c10_cancel_writes_nonce, c10_cancel_touches_confirmed; C10_cancel_frame); the
    CancelTx step of the combined machine leaves the sender's state alone only when
-   [Compose_chain.cancel_frame_ok], computed from those, holds.  Non-vacuity: Compose_chain.ex_chain. *)
+   [Compose_chain.machine_ok], computed from those and from the Lock / Unlock anchors of Send and CancelTx, holds.  Non-vacuity: Compose_chain.ex_chain. *)
 From MevVerif Require model.Cancel proofs.Compose_chain.
 
 (* C08 o C10.  What the node sees of the Send calls of a history with cancellations is exactly what it sees
